@@ -11,7 +11,7 @@ from .. import world as W
 WEIRD = ['[line\u2028sep]', '[vt\x0bx]', '[ff\x0cx]', '[nel\x85x]', '[fs\x1cx]', '[a\nb]',
          '[tab\there]', '[ünï 中]', '[' + 'y' * 400 + ']', '[ps\u2029x]', '[1 2 3 4]', '[cr\rx]']
 LAYER_EXC = ['ValueError', 'KeyError', 'CustomError', 'AssertionError', 'TypeError', 'OSError',
-             'SkipTest']
+             'SkipTest', 'Unhashable', 'BadStr']
 
 
 # ---------------------------------------------------------------------------------------
@@ -553,15 +553,31 @@ def oracle_counts(m, spec, res, T):
         # a layer in X's stack
         pool = [l for _, l, h, _ in T.layer_failures if h == 'setUp']
         rest = []
+        listed = []      # (name, indexes of pool entries it may stand for)
         for name in got_e:
             mm = re.match(r'Layer: (\S+)\.setUp$', name)
             if mm and mm.group(1).startswith(W.simrt.LAYERMOD + '.'):
                 clos = m.closure(m.short(mm.group(1)))
-                hit = [l for l in pool if l in clos]
-                if hit:
-                    pool.remove(hit[0])
+                listed.append((name, [i for i, l in enumerate(pool) if l in clos]))
+            else:
+                rest.append(name)
+        # maximum bipartite matching (augmenting paths) between listed names and failures
+        match = {}       # pool index -> listed index
+
+        def augment(j, seen):
+            for i in listed[j][1]:
+                if i in seen:
                     continue
-            rest.append(name)
+                seen.add(i)
+                if i not in match or augment(match[i], seen):
+                    match[i] = j
+                    return True
+            return False
+        for j in range(len(listed)):
+            augment(j, set())
+        matched_listed = set(match.values())
+        rest += [listed[j][0] for j in range(len(listed)) if j not in matched_listed]
+        pool = [l for i, l in enumerate(pool) if i not in match]
         if pool:
             viols.append(C.viol('C12/layer-setup-failure-not-listed',
                                 'setUp failures of %r are not listed in %r' % (pool, got_e)))
@@ -614,6 +630,14 @@ def oracle_verdict(m, spec, res, T):
                             % res.raised))
         return viols
     if lookalike:
+        return viols
+    # a child that died abnormally after its complete report arrived: 'failed' is what the
+    # statement says ("died"); the pinned runner cannot tell and uses the report - both accepted
+    died_after_report = any(
+        c['report_complete'] and (c['died'] or any(k[0] in ('kill_after', 'truncate_report')
+                                                   for k in c['channel']))
+        for c in res.children)
+    if died_after_report and res.verdict and not expected:
         return viols
     if bool(res.verdict) != bool(expected):
         viols.append(C.viol('C02/verdict-%s-expected-%s/%s/%s'
